@@ -1,6 +1,7 @@
 package util
 
 import (
+	"bytes"
 	"context"
 	"encoding/binary"
 	"io"
@@ -40,14 +41,22 @@ func (c *protoStream) RecvMsg(m interface{}) error {
 		return nil
 	}
 	buf := *bufPool.Get().(*[]byte)
+	defer func() { bufPool.Put(&buf) }()
 	if cap(buf) < int(length) {
-		buf = make([]byte, length)
+		// do not size the buffer from the untrusted length prefix: grow it as the payload arrives
+		var bb bytes.Buffer
+		if _, err := io.CopyN(&bb, c.Reader, int64(length)); err != nil {
+			if err == io.EOF {
+				err = io.ErrUnexpectedEOF
+			}
+			return err
+		}
+		buf = bb.Bytes()
 	} else {
 		buf = buf[:length]
-	}
-	defer bufPool.Put(&buf)
-	if _, err := io.ReadFull(c.Reader, buf); err != nil {
-		return err
+		if _, err := io.ReadFull(c.Reader, buf); err != nil {
+			return err
+		}
 	}
 	err := msg.Unmarshal(buf)
 	if err != nil {
